@@ -7,7 +7,8 @@ import iomodel
 
 RULE = ("files produced by the independent writer of harness/ioops.py (not praatio's emitters) from random tier data: labels "
         "with quotes / newlines / Unicode, empty tiers, blank-labelled intervals, duplicate tier names; numerals in plain, "
-        "integer and exponent notation, '-0' starts x layouts {long, short, elan-long, tight-long (no blank before '='), json, textgrid_json} x encodings "
+        "integer and exponent notation, '-0' starts, negative times (a fifth of the files: wholly below 0, or on both sides of it), tier names with "
+        "surrounding blanks / tabs and with line breaks x layouts {long, short, elan-long, tight-long (no blank before '='), json, textgrid_json} x encodings "
         "{utf-8, utf-8-sig, utf-16 LE/BE with BOM} x newline {LF, CRLF} x includeEmptyIntervals x duplicateNamesMode; "
         "each file is opened with textgrid.openTextgrid and compared with the data it was written from; the decoded text is also "
         "given to the Lean reader model. non-trivial = the data has at least one entry")
